@@ -78,7 +78,7 @@ impl Integer {
     #[verifier::external_body] pub fn is_one(&self) -> (r: bool) ensures r == (self.v() == 1) { unimplemented!() }
     #[verifier::external_body] pub fn is_negative(&self) -> (r: bool) ensures r == (self.v() < 0) { unimplemented!() }
     #[verifier::external_body] pub fn is_positive(&self) -> (r: bool) ensures r == (self.v() > 0) { unimplemented!() }
-    #[verifier::external_body] pub fn abs(self) -> (r: Integer) ensures r.v() == abs_int(self.v()) { unimplemented!() }
+    #[verifier::external_body] pub fn abs(&self) -> (r: Integer) ensures r.v() == abs_int(self.v()) { unimplemented!() }
     #[verifier::external_body] pub fn unsigned_abs(&self) -> (r: UBig) ensures r.v() == abs_int(self.v()) { unimplemented!() }
     #[verifier::external_body] pub fn pow(&self, e: usize) -> (r: Integer) ensures r.v() == pow_int(self.v(), e as nat) { unimplemented!() }
     #[verifier::external_body] pub fn bit(&self, i: usize) -> (r: bool) ensures i == 0 ==> r == (self.v() % 2 != 0) { unimplemented!() }
@@ -87,9 +87,10 @@ impl Integer {
     #[verifier::external_body] pub fn num_eq(&self, o: &i64) -> (r: bool) ensures r == (self.v() == *o) { unimplemented!() }
     #[verifier::external_body] pub fn num_gt(&self, o: &i64) -> (r: bool) ensures r == (self.v() > *o) { unimplemented!() }
     #[verifier::external_body] pub fn num_lt(&self, o: &i64) -> (r: bool) ensures r == (self.v() < *o) { unimplemented!() }
-    #[verifier::external_body]
-    pub exec const ONE: Integer ensures Integer::ONE.v() == 1 { unimplemented!() }
 }
+// `Integer::ONE` (associated const of the opaque type) is rewritten to this nullary shim (R5)
+#[verifier::external_body]
+pub fn integer_one() -> (r: Integer) ensures r.v() == 1 { unimplemented!() }
 impl Clone for Integer { #[verifier::external_body] fn clone(&self) -> (r: Self) ensures r == *self { unimplemented!() } }
 
 #[verifier::external_body]
@@ -183,16 +184,9 @@ pub enum Formal { Eval(EvalError), Type(ValidType, Number), Instantiation }
 #[verifier::external_body]
 pub struct MachineStubGen { _p: u8 }
 impl MachineStubGen { pub uninterp spec fn formal(&self) -> Formal; }
+// R4b target: a boxed error-building closure reduced to its formal error term
 #[verifier::external_body]
-pub fn zero_divisor_eval_error(s: StubGen) -> (r: MachineStubGen) ensures r.formal() == Formal::Eval(EvalError::ZeroDivisor) { unimplemented!() }
-#[verifier::external_body]
-pub fn undefined_eval_error(s: StubGen) -> (r: MachineStubGen) ensures r.formal() == Formal::Eval(EvalError::Undefined) { unimplemented!() }
-#[verifier::external_body]
-pub fn numerical_type_error(vt: ValidType, n: Number, s: StubGen) -> (r: MachineStubGen) ensures r.formal() == Formal::Type(vt, n) { unimplemented!() }
-#[verifier::external_body]
-pub fn try_numeric_result<T>(e: Result<T, EvalError>, s: StubGen) -> (r: Result<T, MachineStubGen>)
-    ensures match e { Ok(v) => r == Ok::<T, MachineStubGen>(v), Err(ee) => r matches Err(m) && m.formal() == Formal::Eval(ee) }
-{ unimplemented!() }
+pub fn formal_gen(f: Formal) -> (r: MachineStubGen) ensures r.formal() == f { unimplemented!() }
 
 pub mod ax_number {
     use super::*;
